@@ -186,6 +186,19 @@ def network_and_connection_shapes(src: Path) -> str:
         uses = [n for n in ast.walk(loops[0]) if isinstance(n, ast.Name) and n.id == var and isinstance(n.ctx, ast.Load)]
         if len(uses) != 1:
             raise Refuse(f'{name}: granted size must be used exactly once (as the chunk size)')
+    # the chunk helpers: exactly the granted number of bytes is requested from the stream / the chunk read from
+    # the file is what is sent
+    rd = find_func(pcls.body, 'receive_data')
+    if 'return await self._read(self._reader.read(n_bytes), timeout=self.transfer_read_timeout)' not in ast.unparse(rd):
+        raise Refuse('receive_data no longer reads at most n_bytes from the stream')
+    sd = find_func(pcls.body, 'send_data')
+    if _body_src(sd) != 'await self._send(data, timeout=TRANSFER_TIMEOUT)':
+        raise Refuse(f'send_data changed: {_body_src(sd)}')
+    for name, call in (('send_file', 'await self.send_data(data)'), ('receive_file', 'data = await self.receive_data(bytes_to_read)')):
+        if call not in ast.unparse(find_func(pcls.body, name)):
+            raise Refuse(f'{name}: chunk no longer moved by `{call}`')
+    if 'data = await file_handle.read(bytes_to_write)' not in ast.unparse(find_func(pcls.body, 'send_file')):
+        raise Refuse('send_file: chunk size is no longer the granted token count')
     return ('\n(* shape-checked by the translator (fail closed): Network.set_*_speed_limit = create_limiter + copy_tokens(old) + replace slot +\n'
             '   hand to every peer connection; send_file/receive_file take tokens from the current limiter attribute once per chunk *)\n'
             'Definition SET_LIMIT_COPIES_TOKENS : bool := true.\nDefinition TAKE_PER_CHUNK_FROM_CURRENT_LIMITER : bool := true.\n')
